@@ -25,6 +25,9 @@ func (f SolarChargerDeviceModeFactoryType) New(v uint8) (SolarChargerDeviceMode,
 }
 
 func (f SolarChargerDeviceModeFactoryType) NewEnum(v int) (Enum, error) {
+	if v < 0 || v > 0xFF {
+		return nil, ErrInvalidEnumIdx
+	}
 	return f.New(uint8(v))
 }
 
